@@ -368,6 +368,42 @@ def dot_open_facts(x):
     return (a, c, t, ap, e), ce
 
 
+def heredoc_facts(x):
+    """`here_doc::open_fd`: the descriptor flags the temporary file's descriptor ends up with (none from
+    `open_tmpfile`; an `fcntl_setfd` on it in `open_fd` / one level of helper sets them), and whether the
+    descriptor is closed when filling it fails."""
+    rel = "yash-semantics/src/redir/here_doc.rs"
+    src = strip_comments(x.read(rel))
+    fns = functions(src)
+    if "open_fd" not in fns:
+        x.fail(f"anchor not found: fn open_fd in {rel}")
+    body = fns["open_fd"][1]
+    if not re.search(r"\bopen_tmpfile\s*\(", body):
+        x.fail(f"{rel} fn open_fd: no `open_tmpfile(…)` call — the here-document is opened some other way")
+    # bodies that act on the descriptor: open_fd itself and the private helpers it calls
+    bodies = [("open_fd", body)]
+    for n in set(re.findall(r"\b([a-z_][a-z_0-9]*)\s*\(", body)):
+        if n in fns and n != "open_fd":
+            bodies.append((n, fns[n][1]))
+    cloexec = False
+    for n, b in bodies:
+        for m in re.finditer(r"\bfcntl_setfd\s*\(", b):
+            args, _ = call_args(b, m.end() - 1)
+            if args is None or len(args) != 2:
+                x.fail(f"{rel} fn {n}: cannot read the arguments of `fcntl_setfd(…)`")
+            fl = args[1]
+            if "CloseOnExec" in fl or "CLOEXEC" in fl:
+                cloexec = True
+            elif re.search(r"empty\s*\(\s*\)|EMPTY|default\s*\(\s*\)", fl):
+                cloexec = False
+            else:
+                x.fail(f"{rel} fn {n}: cannot classify the flags of `fcntl_setfd`: `{fl}`")
+        if re.search(r"\b(dup|dup2|move_fd_internal|fcntl_setfl)\s*\(", b):
+            x.fail(f"{rel} fn {n}: the descriptor is duplicated / moved / re-flagged — shape not understood")
+    closes = bool(re.search(r"\bclose\s*\(", body))
+    return cloexec, closes
+
+
 def builtin_types(x, names):
     src = strip_comments_keep_strings(x.read("yash-builtin/src/lib.rs"))
     out = {}
@@ -449,26 +485,44 @@ def redir_consts(x):
         x.fail("anchor not found: fn open_normal in yash-semantics/src/redir.rs")
     on = x.item_body(redir[k:], r"match operator", "match operator in fn open_normal")
 
-    def arm(name):
-        m3 = re.search(name + r"\s*=>\s*\{?\s*open_file\(\s*env,\s*OfdAccess::(\w+),\s*(.*?),\s*operand", on, re.S)
-        if not m3:
-            x.fail(f"anchor not found: arm `{name} => open_file(env, OfdAccess::…, flags, operand)` in fn open_normal")
-        acc = {"ReadOnly": ".ro", "WriteOnly": ".wo", "ReadWrite": ".rw"}.get(m3.group(1))
-        if acc is None:
-            x.fail(f"unknown access {m3.group(1)} in arm {name}")
-        fl = m3.group(2)
-        return acc, ("Create" in fl), ("Truncate" in fl), ("Append" in fl), ("Exclusive" in fl)
-
+    # every arm `A | B [if guard] => [{] open_file(env, <access>, <flags>, operand)`: the alternatives in any
+    # order, the arms in any order; the guarded arm (noclobber) is read by noclobber_facts
+    file_args = {}
+    for m3 in re.finditer(r"(?m)^\s*((?:\w+\s*\|\s*)*\w+)\s*(if\b[^=]*?)?\s*=>\s*\{?\s*open_file\s*\(", on):
+        if m3.group(2):
+            x.fail(f"fn open_normal: guarded arm `{m3.group(1).strip()} {m3.group(2).strip()}` calls open_file "
+                   "directly — shape not understood")
+        args, _ = call_args(on, m3.end() - 1)
+        if args is None or len(args) != 4 or args[0] != "env" or args[3] != "operand":
+            x.fail(f"fn open_normal arm {m3.group(1).strip()}: cannot read `open_file(env, access, flags, operand)`")
+        acc = classify_access(x, args[1], f"open_normal arm {m3.group(1).strip()}")
+        fl = args[2]
+        unknown = [f for f in re.findall(r"OpenFlag::(\w+)", fl) if f not in ("Create", "Truncate", "Append", "Exclusive")]
+        if unknown or not (re.search(r"OpenFlag::", fl) or re.search(r"empty\s*\(\s*\)|EMPTY|default\s*\(\s*\)", fl)):
+            x.fail(f"fn open_normal arm {m3.group(1).strip()}: cannot classify the flags `{fl}`")
+        val = (acc, "Create" in fl, "Truncate" in fl, "Append" in fl, "Exclusive" in fl)
+        for n in m3.group(1).split("|"):
+            n = n.strip()
+            if n in file_args and file_args[n] != val:
+                x.fail(f"fn open_normal: two different unguarded arms for {n}")
+            file_args[n] = val
+    for n in ("FileIn", "FileOut", "FileClobber", "FileAppend", "FileInOut"):
+        if n not in file_args:
+            x.fail(f"anchor not found: arm `{n} => open_file(env, OfdAccess::…, flags, operand)` in fn open_normal")
+    if file_args["FileOut"] != file_args["FileClobber"]:
+        x.fail("fn open_normal: `>` (clobber on) and `>|` no longer open the file the same way — the model has one "
+               "table entry for both")
     arms = {
-        "fileIn": arm(r"FileIn"),
-        "fileOut": arm(r"FileOut\s*\|\s*FileClobber"),
-        "fileAppend": arm(r"FileAppend"),
-        "fileInOut": arm(r"FileInOut"),
+        "fileIn": file_args["FileIn"],
+        "fileOut": file_args["FileOut"],
+        "fileAppend": file_args["FileAppend"],
+        "fileInOut": file_args["FileInOut"],
     }
     nc_first, nc_second, nc_errno = noclobber_facts(x, redir, fns)
     dup_in, dup_out, unsupported = open_normal_other_arms(x, on)
     dot_args, dot_cloexec = dot_open_facts(x)
     btypes = builtin_types(x, ["exec", ":", ".", "command"])
+    here_cloexec, here_closes = heredoc_facts(x)
     b = lambda v: "true" if v else "false"
     lines = [
         "/-- `yash_env::io::MIN_INTERNAL_FD` -/",
@@ -515,6 +569,10 @@ def redir_consts(x):
         "/-- the `.` built-in's `open` (yash-builtin/src/source/semantics.rs `open_file`): arguments, O_CLOEXEC -/",
         f"def dotOpenArgs : OpenArgs := {oa(dot_args)}",
         f"def dotOpenCloexec : Bool := {b(dot_cloexec)}",
+        "/-- `here_doc::open_fd`: is the temporary file's descriptor made CLOEXEC before it is handed back -/",
+        f"def hereDocCloexec : Bool := {b(here_cloexec)}",
+        "/-- `here_doc::open_fd`: is the descriptor closed when writing the content fails -/",
+        f"def hereDocClosesOnFailure : Bool := {b(here_closes)}",
         "",
         "/-- `yash_env::builtin::Type` -/",
         "inductive BuiltinType where | special | mandatory | elective | extension | substitutive",
